@@ -1121,7 +1121,13 @@ func Retract(vm *VM, t Term, k Cont, env *Env) *Promise {
 	ks := make([]func(context.Context) *Promise, len(u.clauses))
 	for i, c := range u.clauses {
 		c := c
-		raw := rulify(c.raw, env)
+		// The stored clause is matched through a renamed copy: unifying with the stored term itself would bind
+		// its variables for the rest of the goal, and clauses of one text share the variables of equal name.
+		cp, err := renamedCopy(c.raw, nil, env)
+		if err != nil {
+			return Error(err)
+		}
+		raw := rulify(cp, env)
 		ks[i] = func(_ context.Context) *Promise {
 			return Unify(vm, t, raw, func(env *Env) *Promise {
 				// Other updates since the call might have moved or removed the clause. So we look for the clause itself.
